@@ -163,11 +163,22 @@ def laws_case(ck, I, rng, t):
         pre.append({'op': 'set', 'M': corr['M'], 's': corr['s']})
     s0 = G.sky(c0, x, y)
     plane = rng.choice(['own', 'own', 'self', 'rotated_or_scaled', 'offset'])
+    ref_has_history = False
     if plane == 'own':
         ref, gr = None, None
     else:
         mode = {'self': 'self', 'rotated_or_scaled': rng.choice(['rotated', 'scaled']), 'offset': 'offset'}[plane]
         _, gr, ref = G.gen_reference(I, rng, g, c0, 0, mode=mode)
+        if kind == 'gwcs' and mode in ('self', 'rotated') and rng.random() < 0.6:
+            # a reference corrector with a correction history of its own (two or three own-plane corrections on the
+            # same object): its plane is an affine image of the plane it was built with, same tangent point
+            rh = []
+            for _ in range(rng.choice([2, 3])):
+                rc_ = G.gen_correction(rng, G.pix_scale_arcsec(g) / G.tan_scale_arcsec(gr))
+                ref.set_correction(np.array(rc_['M']), np.array(rc_['s']))
+                rh.append({'M': rc_['M'], 's': rc_['s']})
+            plane += '+corrected%d' % len(rh)
+            ref_has_history = True
     U = G.tan_scale_arcsec(g if ref is None else gr)
     u = G.pix_scale_arcsec(g) / U
     c1, c2 = G.gen_correction(rng, u), G.gen_correction(rng, u)
@@ -207,6 +218,13 @@ def laws_case(ck, I, rng, t):
     bb.set_correction(Mi, si, **kw)
     report('inverse', G.sky_diff(G.sky(bb, x, y), s0), 3 * (t1 + t2),
            {'predicate': '(M,s) then (M^-1, -M^-1 s) restores det_to_world', 'Minv': Mi.tolist(), 'sinv': si.tolist()})
+    if ref_has_history:
+        # the live reference object and a corrector rebuilt from its corrected WCS are the same plane
+        a_re = c0.copy()
+        a_re.set_correction(M1, s1, ref_tpwcs=G.rewrap(I, ref, gr))
+        report('reference-live-vs-rebuilt', G.sky_diff(G.sky(a, x, y), G.sky(a_re, x, y)), 2 * t1 + 1e-9,
+               {'predicate': 'a correction given through a reference corrector with its own correction history equals the '
+                             'same correction given through a corrector rebuilt from that reference\'s corrected WCS'})
     # composition
     c12 = a.copy()
     t2 = tol(a, M2, s2)
